@@ -9,6 +9,8 @@ def itemref_items(slot="util"):
         Type(FIR, "struct", "ItemRef", slot=slot, attrs=["#[verifier::accept_recursive_types(T)]"], derive="drop",
              rewrites=[Rewrite("    std::marker::PhantomData<*const T>);", "    pub std::marker::PhantomData<*const T>);", rule="R2",
                                why="visibility widened to pub (no runtime meaning)")]),
+        Fn(FIR, "new", impl="<T> ItemRef<T>", impl_header="<T> ItemRef<T>", slot=slot, ret="res", key="ItemRef::new",
+           ensures=[C("index", "res.0 == value")]),
         Impl(FIR, "<T> Clone for ItemRef<T>", slot=slot, mode="stub",
              fns={"clone": Fn(FIR, "clone", key="ItemRef::clone", ret="res", ensures=[C("same", "res.0 == self.0")])}),
         Impl(FIR, "<T> Copy for ItemRef<T>", slot=slot),
